@@ -189,15 +189,72 @@ inductive Part
   | hole (src : List Char)
   deriving DecidableEq, Repr
 
+/-! ## the decisions of `unescape_f_string_part` as data (GENERATED facts)
+
+The backslash arm of the brace pass is a `&&` chain of tests on the peekable
+`char_indices` iterator, followed by a skip loop.  The translator target
+`fstrtext` emits that chain (`RotoV.Gen.C09FStrText.backslashConds`, `…SkipStop`,
+`braceChars`) from the source; `partTextWith` runs the pass with them, so a
+changed arm (e.g. `next()` replaced by `next_if(..)`) changes this function. -/
+
+inductive IterTest
+  /-- `let Some((_, 'c')) = chars.next()`: consumes one char whatever it is -/
+  | nextIs (c : Char)
+  /-- `let Some((_, 'c')) = chars.peek()` / `chars.peek().is_some_and(..)`: consumes nothing -/
+  | peekIs (c : Char)
+  /-- `chars.next_if(|(_, x)| *x == 'c').is_some()`: consumes the char only when it is `c` -/
+  | nextIfIs (c : Char)
+  deriving DecidableEq, Repr
+
+/-- the `&&` chain (short-circuit): (all tests held, number of chars consumed) -/
+def runConds : List IterTest → List Char → Nat → Bool × Nat
+  | [], _, n => (true, n)
+  | _ :: _, [], n => (false, n)
+  | .nextIs a :: ts, c :: r, n => if c == a then runConds ts r (n + 1) else (false, n + 1)
+  | .peekIs a :: ts, c :: r, n => if c == a then runConds ts (c :: r) n else (false, n)
+  | .nextIfIs a :: ts, c :: r, n => if c == a then runConds ts r (n + 1) else (false, n)
+
+/-- `for (_, c) in chars.by_ref() { if c == stop { break; } }`: chars consumed -/
+def skipCount (stop : Char) : List Char → Nat
+  | [] => 0
+  | c :: cs => if c == stop then 1 else skipCount stop cs + 1
+
+/-- the backslash arm: how many chars after the backslash it consumes -/
+def armConsumed (conds : List IterTest) (stop : Option Char) (cs : List Char) : Nat :=
+  match runConds conds cs 0 with
+  | (true, n) =>
+    match stop with
+    | some s => n + skipCount s (cs.drop n)
+    | none => n
+  | (false, n) => n
+
+/-- `unescape_f_string_part` with the backslash arm and the brace characters as
+    parameters: `acc` is the pending piece `s[piece_start..i]` (reversed). -/
+def partTextWith (arm : List Char → Nat) (braces : List Char) : List Char → List Char → Option (List Char)
+  | [], acc => unescape acc.reverse
+  | c :: cs, acc =>
+    if c == '\\' then
+      partTextWith arm braces (cs.drop (arm cs)) ((cs.take (arm cs)).reverse ++ c :: acc)
+    else if braces.contains c && cs.head? == some c then
+      match unescape acc.reverse, partTextWith arm braces cs.tail [] with
+      | some a, some b => some (a ++ c :: b)
+      | _, _ => none
+    else partTextWith arm braces cs (c :: acc)
+termination_by cs => cs.length
+decreasing_by
+  · simp only [List.length_drop, List.length_cons]; omega
+  · simp only [List.length_tail, List.length_cons]; omega
+  · simp only [List.length_cons]; omega
+
 /-- `Parser::f_string` on the characters after `f"`, for holes whose
     expression contains no `}` / `"` (the hole's own parse is not modelled):
-    the parts, or `none` on any error. -/
-def fString : Nat → List Char → Option (List Part)
+    the parts, or `none` on any error; `pt` decodes one text part. -/
+def fStringP (pt : List Char → Option (List Char)) : Nat → List Char → Option (List Part)
   | 0, _ => none
   | fuel + 1, inp =>
     match fStringPart inp with
     | .part .stringEnd raw _ =>
-      if raw.isEmpty then some [] else (partText raw).map fun s => [.text s]
+      if raw.isEmpty then some [] else (pt raw).map fun s => [.text s]
     | .part .intermediate raw rest =>
       -- `take(CurlyLeft)`, `expr()`, `take(CurlyRight)`
       match rest with
@@ -205,13 +262,15 @@ def fString : Nat → List Char → Option (List Part)
         let (h, after) := eatWhile (fun c => c != '}') rest'
         match after with
         | '}' :: after' =>
-          match fString fuel after' with
+          match fStringP pt fuel after' with
           | some ps =>
             if raw.isEmpty then some (.hole h :: ps)
-            else (partText raw).map fun s => .text s :: .hole h :: ps
+            else (pt raw).map fun s => .text s :: .hole h :: ps
           | none => none
         | _ => none
       | _ => none
     | _ => none
+
+def fString : Nat → List Char → Option (List Part) := fStringP partText
 
 end RotoV.FString
